@@ -178,7 +178,7 @@ def send_append_entries(ctx):
     chunks = ctx.glist('chunks')
     if chunks:
         still = Or(*[And(Eq(node.idx, i), so.cell('connectedNodes').bits[i]) for i in range(U)])
-        ctx.prove(Implies(And(chunks[-1], still), nx1 == first + 2), 'C09:O9.6.nextIndex-after-snapshot')
+        ctx.prove(Implies(And(chunks[-1], still), nx1 == first + 2), 'C09+C01:O9.6.nextIndex-after-snapshot')
     # frame: only nextIndex[node] may change among the maps
     n0, n1 = old.get('raftNextIndex'), so.cell('raftNextIndex')
     for i in range(U):
